@@ -208,6 +208,14 @@ def explore(spec0, max_depth, res, first, aspects, problem_kinds, name, extra_ch
             continue
         seen.add(k)
         res.states += 1
+        from . import scen as _scen
+
+        pre_last = w.pre_specs[-1] if getattr(w, "pre_specs", None) else spec0
+        if _scen.zero_block_role(pre_last, [hist[-1]]) == "insertion-at-zero-sized-block":
+            # F42: where the sizeless block ends up relative to the new bytes depends on set order, and the listing
+            # abstraction cannot see it - the state is counted but nothing is built on top of it
+            res.extra["chain_states_not_expanded_after_insertion_at_zero_sized_block"] += 1
+            continue
         if len(hist) < max_depth:
             for a in atoms(sp, len(hist)):
                 frontier.append((hist + (a,), k))
